@@ -336,7 +336,7 @@ func c18Binary(it c18Item, res *engine.JobResult) {
 		}
 	}
 	args = append(args, it.ExtraArgs...)
-	r := engine.CLI(stdin, 30*time.Second, nil, args...)
+	r := engine.CLI(stdin, 120*time.Second, nil, args...)
 	res.Evals++
 	res.Validated++
 	fam := strings.SplitN(it.Name, "/", 2)[0]
